@@ -1,6 +1,6 @@
 (* C06 -- Protobuf wire format conforms to the protobuf encoding spec (interop).
    Spec.v is written from the encoding guide, independently of pilota's code.  Only statements. *)
-From PVPb Require Import Wire Codec Msg Spec Proofs.SpecP.
+From PVPb Require Import Wire Codec Msg Spec Proofs.SpecP Proofs.MsgRtP Proofs.SpecDecP Proofs.SpecMsgP.
 Open Scope Z_scope.
 
 (* The link between "declared sint32" and "uses the sint32 codec": for all 16 declared scalar types
@@ -45,8 +45,32 @@ Theorem C06_packed_in : forall t m tag vs acc r a, In t declared_scalars -> scal
 Proof. exact spec_packed_in. Qed.
 Print Assumptions C06_packed_in.
 
-(* NOT PROVED (message level; validated by the correspondence runs model = reference decoder = implementation):
-   C06_out : schema_ok sc -> wt_msg d sc i x = true ->
-             spec_decode_msg sc i (enc_msg edv d sc i x) = Some (norm x)
+(* the reference decoder's own primitives: a record written by a conforming encoder for a declared scalar type is
+   cut out exactly by the tokeniser, and its payload is read back as the value *)
+Theorem C06_spec_record : forall f p tag v rest, tag_ok tag -> spec_value_ok p v = true ->
+  spec_record (S f) (spec_encode_field p tag v ++ rest) = Some (tag, stok p v, rest).
+Proof. exact spec_record_spec. Qed.
+Print Assumptions C06_spec_record.
+
+Theorem C06_spec_value : forall t v, spec_value_ok t v = true -> spec_scalar_value t (stok t v) = Some v.
+Proof. exact spec_scalar_value_rt. Qed.
+Print Assumptions C06_spec_value.
+
+(* C06_out, message level: what the generated encoder writes, the schema-aware reference decoder (two passes:
+   tokenise, then interpret by the schema; written from the encoding guide) reads back as the same value -- every
+   well-formed schema, both settings of pb-encode-default-value, every typed value of every message type (nested
+   messages, repeated, maps, oneofs) whose encoding fits in a usize.  [lossless] as in C05_msg_rt: where the encoder
+   skips a map value as `== default`, the value is the default (F-06b is its failure: a -0.0 map value is left off the
+   wire, so ANY conforming decoder reads +0.0). *)
+Theorem C06_out : forall edv sc d i v, schema_ok sc = true -> wt_msg d sc i v = true -> lossless edv d sc i v ->
+  zlen (enc_msg edv d sc i v) < two64 -> (d <= depth_fuel)%nat ->
+  spec_decode_msg sc i (enc_msg edv d sc i v) = Some v.
+Proof. exact spec_decode_rt. Qed.
+Print Assumptions C06_out.
+
+(* NOT PROVED (validated by the correspondence runs model = reference decoder = implementation, every style of the
+   reference encoder):
    C06_in  : pb_legal sc i x l -> msg_decode sc i (mkR l 0) = OOk x (mkR [] _)
-   for every order of records, packed/unpacked/mixed repeated scalars and defaults present or omitted. *)
+   for every order of records, packed / unpacked / mixed repeated scalars and defaults present or omitted (the relation
+   pb_legal of conforming encodings is not set up in Coq; the field-level in-direction is C06_scalar_in / C06_packed_in,
+   the order-independence half is C18). *)
